@@ -33,6 +33,7 @@ type Engine struct {
 	strLits   map[string]string
 	strOrder  []string
 	knownObligs map[string]bool // obligation names listed as known findings for the property being checked
+	extraErrors []string        // obligations that could not be generated outside any function under contract (nopanicarg)
 	usedTags, usedFields, usedAnons map[int]string
 	heapSorts map[string]string
 	outDir    string
